@@ -196,3 +196,38 @@ def plan(ctx):
                            "space_legend": "F=all 128 ASCII + non-ASCII classes + surrogates + every escape shape; X=class "
                                            "representatives + same; K=behavioural core; digit = word length"}
     return tasks
+
+
+# ---- E2: every reachable state must be well-formed -------------------------------------------------------------------
+def case_trace(acc, seed, opnames):
+    from vlib import bfs
+    acc.evals += 1
+    try:
+        u = bfs.replay(seed, list(opnames))[-1]
+    except Exception:  # noqa: BLE001
+        acc.count("trace_not_replayable")
+        return None
+    state_invariant(acc, u, (seed, list(opnames)))
+
+
+def state_invariant(acc, u, trace):
+    if any("encoded=True" in n for n in trace[1]):
+        acc.count("encoded_true_state_skipped")
+        return
+    try:
+        bad = wellformed_url(u)
+    except (ValueError, TypeError):
+        acc.count("unstringifiable")
+        return
+    acc.nontrivial += 1 if trace[1] else 0
+    if bad:
+        acc.viol("trace", (trace[0], list(trace[1])), observed={"str": str(u), "where": bad[0], "detail": bad[1]},
+                 expected="every component within its RFC 3986 character set", msg="%r then %r -> %s" % (trace[0], trace[1], bad[1]))
+
+
+CASES["trace"] = case_trace
+
+
+def finish(ctx, merged, pools):
+    from vlib import bfs
+    bfs.run(ctx, pools, merged, "checks.C01", 2 if ctx.tier == "quick" else 3)
